@@ -38,7 +38,9 @@ impl Ord for IpAddr { #[verifier::external_body] fn cmp(&self, other: &IpAddr) -
 // mutex that serialises writers.
 // Ghost clock (rewrite R20): every load / store / lock of the call is one step; the step number
 // is threaded through these calls as an erased argument, so their ORDER can be stated.
-pub tracked struct Clock { pub ghost now: nat }
+// `held`: the acquisition steps of the mutex guards this call holds: `lock` adds its step, an explicit
+// `drop(guard)` removes it (end of scope: unit rtr_registry_hold).
+pub tracked struct Clock { pub ghost now: nat, pub ghost held: Set<nat> }
 // Ghost facts about this call (each produced only by the `ensures` of the operation named):
 //   loaded_at(s, v, t)        load at step t returned the list v
 //   lock_acquired_at(mx, t)   lock at step t acquired mx
@@ -71,7 +73,7 @@ impl<T> Mutex<T> {
         ensures
             g.mutex_spec() == self, g.acquired_at() == old(clk).now,
             lock_acquired_at(self, old(clk).now),
-            final(clk).now == old(clk).now + 1,
+            final(clk).now == old(clk).now + 1, final(clk).held == old(clk).held.insert(old(clk).now),
     { unimplemented!() }
 }
 impl ArcSwap<Vec<(IpAddr, Arc<RtrMetricsData>)>> {
@@ -82,7 +84,7 @@ impl ArcSwap<Vec<(IpAddr, Arc<RtrMetricsData>)>> {
     pub fn load(&self, Tracked(clk): Tracked<&mut Clock>) -> (r: Arc<Vec<(IpAddr, Arc<RtrMetricsData>)>>)
         ensures
             sorted_strict(r@), loaded_at(self, r@, old(clk).now),
-            final(clk).now == old(clk).now + 1,
+            final(clk).now == old(clk).now + 1, final(clk).held == old(clk).held,
             // an allocated Vec of 24-byte pairs is far shorter than usize::MAX
             r@.len() < usize::MAX,
             forall|i: int| 0 <= i < r@.len() ==> has_entry(self, (#[trigger] r@[i]).0, r@[i].1),
@@ -97,9 +99,11 @@ impl ArcSwap<Vec<(IpAddr, Arc<RtrMetricsData>)>> {
             // other writer can have stored in between), plus exactly one pair: no address is lost or replaced
             exists|tl: nat, tv: nat, v: Seq<(IpAddr, Arc<RtrMetricsData>)>, k: int|
                 #[trigger] lock_acquired_at(writer_mutex(self), tl) && #[trigger] loaded_at(self, v, tv)
-                && tl < tv && tv < old(clk).now && is_insert(v, new@, k, #[trigger] new@[k]),
+                && tl < tv && tv < old(clk).now && is_insert(v, new@, k, #[trigger] new@[k])
+                // ... and the mutex has not been released since
+                && old(clk).held.contains(tl),
         ensures
-            final(clk).now == old(clk).now + 1,
+            final(clk).now == old(clk).now + 1, final(clk).held == old(clk).held,
             forall|i: int| 0 <= i < new@.len() ==> has_entry(self, (#[trigger] new@[i]).0, new@[i].1),
     { unimplemented!() }
 }
@@ -179,3 +183,10 @@ pub assume_specification<T, E> [Result::<T, E>::unwrap_or] (a: Result<T, E>, def
 pub assume_specification<T, E, F: FnOnce(E) -> T> [Result::<T, E>::unwrap_or_else] (a: Result<T, E>, f: F) -> (r: T)
     requires a is Err ==> f.requires((a->Err_0,)),
     ensures a is Ok ==> r == a->Ok_0, a is Err ==> f.ensures((a->Err_0,), r);
+
+// std::mem::drop applied to a mutex guard: releases the mutex -- a clocked event (rule R20, "drop" in
+// clock_calls). Shadows the prelude's `drop` inside the generated module.
+#[verifier::external_body]
+pub fn drop<'a, T>(g: MutexGuard<'a, T>, Tracked(clk): Tracked<&mut Clock>)
+    ensures final(clk).now == old(clk).now + 1, final(clk).held == old(clk).held.remove(g.acquired_at()),
+{ unimplemented!() }
